@@ -402,6 +402,93 @@ theorem C08_key_address (env : Env) (net : Network) (sec : Bytes) (h20 : ∀ m, 
   · simp only [bip84Address, forScript, infoForScript_std _ w2, bind, Except.bind, forScriptInfo]
   · simp only [bip49Address, forInfo_std _ w2, forP2s, forScript, infoForScript_std _ w3, bind, Except.bind, forScriptInfo]
 
+/-! ## key objects over time: the caches are transparent -/
+
+/-- a cache slot is empty or holds the hash of the matching SEC form -/
+def CacheOk (env : Env) (secC secU : Bytes) (st : KeyState) : Prop :=
+  (st.hashC = none ∨ st.hashC = some (env.hash160 secC)) ∧ (st.hashU = none ∨ st.hashU = some (env.hash160 secU))
+
+theorem resolveFlag_fresh (kind : KeyKind) (st : KeyState) (b : Bool) (c : Option Bool) :
+    resolveFlag kind st b c = resolveFlag kind (freshKey true st.compressed) b c := by
+  cases c <;> rfl
+
+theorem keyHash160_spec (env : Env) (secC secU : Bytes) (st : KeyState) (h : CacheOk env secC secU st) (c : Bool) :
+    (keyHash160 env secC secU st c).1 = env.hash160 (if c then secC else secU) ∧
+    CacheOk env secC secU (keyHash160 env secC secU st c).2 ∧
+    (keyHash160 env secC secU st c).2.compressed = st.compressed := by
+  obtain ⟨hc, hu⟩ := h
+  unfold keyHash160
+  cases c with
+  | true =>
+    simp only [if_true]
+    cases hcv : st.hashC with
+    | none => exact ⟨rfl, ⟨Or.inr rfl, hu⟩, rfl⟩
+    | some v =>
+      have hv : v = env.hash160 secC := by
+        rcases hc with hc | hc
+        · rw [hcv] at hc; cases hc
+        · rw [hcv] at hc; injection hc
+      exact ⟨hv, ⟨Or.inr (by rw [hcv, hv]), hu⟩, rfl⟩
+  | false =>
+    simp only [Bool.false_eq_true, if_false]
+    cases huv : st.hashU with
+    | none => exact ⟨rfl, ⟨hc, Or.inr rfl⟩, rfl⟩
+    | some v =>
+      have hv : v = env.hash160 secU := by
+        rcases hu with hu | hu
+        · rw [huv] at hu; cases hu
+        · rw [huv] at hu; injection hu
+      exact ⟨hv, ⟨hc, Or.inr (by rw [huv, hv])⟩, rfl⟩
+
+theorem keyStep_spec (env : Env) (net : Network) (kind : KeyKind) (secC secU : Bytes) (st : KeyState)
+    (h : CacheOk env secC secU st) (s : KeyStep) :
+    (keyStep env net kind secC secU st s).1 = keyStepFresh env net kind secC secU st.compressed s ∧
+    CacheOk env secC secU (keyStep env net kind secC secU st s).2 ∧
+    (keyStep env net kind secC secU st s).2.compressed = st.compressed := by
+  cases s with
+  | hash160 c =>
+    have := keyHash160_spec env secC secU st h (resolveFlag kind st false c)
+    simp only [keyStep, keyStepFresh, this.1, ← resolveFlag_fresh]
+    exact ⟨trivial, this.2⟩
+  | fingerprint c =>
+    have := keyHash160_spec env secC secU st h (resolveFlag kind st false c)
+    simp only [keyStep, keyStepFresh, this.1, ← resolveFlag_fresh]
+    exact ⟨trivial, this.2⟩
+  | address c =>
+    have := keyHash160_spec env secC secU st h (resolveFlag kind st true c)
+    simp only [keyStep, keyStepFresh, this.1, ← resolveFlag_fresh]
+    exact ⟨trivial, this.2⟩
+  | sec c =>
+    simp only [keyStep, keyStepFresh, ← resolveFlag_fresh]
+    exact ⟨trivial, h, trivial⟩
+  | publicCopy =>
+    simp only [keyStep, keyStepFresh]
+    refine ⟨trivial, ?_, ?_⟩
+    · split
+      · exact ⟨Or.inl rfl, Or.inl rfl⟩
+      · exact h
+    · split <;> rfl
+
+theorem keyRun_spec (env : Env) (net : Network) (kind : KeyKind) (secC secU : Bytes) (steps : List KeyStep) :
+    ∀ st, CacheOk env secC secU st →
+      keyRun env net kind secC secU st steps = steps.map (keyStepFresh env net kind secC secU st.compressed) := by
+  induction steps with
+  | nil => intro st _; rfl
+  | cons s ss ih =>
+    intro st h
+    have hs := keyStep_spec env net kind secC secU st h s
+    simp only [keyRun, List.map_cons, hs.1, ih _ hs.2.1, hs.2.2]
+
+/-- ★ the `hash160` caches and the copying methods are transparent: after any sequence of `hash160` / `fingerprint` /
+`address` / `sec` / `public_copy` calls (any `is_compressed` arguments, any key class) on a newly made key, every answer
+is what a fresh computation from the key's SEC encodings gives — in particular `address(is_compressed=c)` is always the
+address of the script paying to `hash160(sec(c))` -/
+theorem C08_key_cache_transparent (env : Env) (net : Network) (kind : KeyKind) (secC secU : Bytes) (isPrivate compressed : Bool)
+    (steps : List KeyStep) :
+    keyRun env net kind secC secU (freshKey isPrivate compressed) steps =
+      steps.map (keyStepFresh env net kind secC secU compressed) :=
+  keyRun_spec env net kind secC secU steps (freshKey isPrivate compressed) ⟨Or.inl rfl, Or.inl rfl⟩
+
 /-! ## non-vacuity: the hypotheses are satisfiable -/
 
 /-- a toy codec (hex behind a marker character, no Bech32) that satisfies `CodecLaws` -/
